@@ -60,7 +60,9 @@ struct InFlight {
 struct Model {
     VSet G[2];
     std::vector<std::array<VSet, 2>> T;
-    std::vector<InFlight> fl;
+    std::vector<std::vector<InFlight>> fl;      // per task: stack of calls whose violation is being dispatched
+    std::vector<std::pair<int, int>> nested;     // per task: action the next invoked handler performs from inside (0 = none)
+    uint64_t nested_actions = 0;
     std::vector<int> regs;      // per kind: process-wide registrations so far
     std::vector<std::array<int, 2>> tregs;
     bool tier2 = false;
@@ -83,7 +85,8 @@ static void model_reset(size_t ntasks, bool tier2) {
     M = Model();
     M.G[0] = M.G[1] = bit(V_NONE);
     M.T.assign(ntasks, {bit(V_NONE), bit(V_NONE)});
-    M.fl.assign(ntasks, InFlight());
+    M.fl.assign(ntasks, {});
+    M.nested.assign(ntasks, {0, 0});
     M.regs.assign(2, 0);
     M.tregs.assign(ntasks, {0, 0});
     M.tier2 = tier2;
@@ -142,8 +145,8 @@ static void collapse(int t, int k, VSet gadm, int obs) {
 static void c13_handler_hook(int hid, int) {
     Task *t = t_self;
     if (!t) return;
-    InFlight &f = M.fl[t->id];
-    if (!f.active) return; // handler invoked outside a violating call (clean call): logged, not judged (C05)
+    if (M.fl[t->id].empty()) return; // handler invoked outside a violating call (clean call): logged, not judged (C05)
+    InFlight &f = M.fl[t->id].back();
     f.invocations++;
     int obs = value_of_hid(hid);
     VSet exp = expected_handlers(t->id, f.kind, f.gadm);
@@ -203,6 +206,111 @@ static void do_violation(Task &t, int kind, int which, bool preemptible) {
 }
 
 static int api_kind(int fn);
+
+// one process-wide or thread-local registration call, checked against the model
+static int64_t do_registration(Task &t, int fn, int harg, bool preemptible) {
+    int me = t.id;
+    int k = (fn == OP_SET_MEM || fn == OP_THRD_SET_MEM) ? 1 : 0;
+    bool thr = fn == OP_THRD_SET_STR || fn == OP_THRD_SET_MEM;
+    constraint_handler_t h = handler_ptr(harg);
+    constraint_handler_t prev;
+    int nv = value_of_arg(harg);
+    // two process-wide registrations of one kind never overlap, whoever makes the second one (a thread's own op or a
+    // handler re-entering the library)
+    if (!thr)
+        while (M.reg_owner[k] >= 0 && M.reg_owner[k] != me) sim_switch_to(t, M.reg_owner[k]);
+    if (!thr && preemptible) {
+        // Tier 2: the registration call itself can be preempted, so that violations on other threads are dispatched
+        // while it is half done; they may see the old or the new handler, nothing else. Two process-wide
+        // registrations of one kind never overlap (racing registrations are a caller-side race the property does
+        // not speak about): a second one waits for the first.
+        while (M.reg_owner[k] >= 0 && M.reg_owner[k] != me) sim_switch_to(t, M.reg_owner[k]);
+        M.reg_owner[k] = me;
+        M.reg_pending[k] = bit(nv);
+        for (auto &st : M.fl)
+            for (auto &f : st)
+                if (f.kind == k) { f.gadm |= bit(nv); M.midcall_regs++; }
+        M.preemptible_regs++;
+    }
+    bool save = t.in_op;
+    t.in_op = preemptible;
+    if (!thr) prev = k ? set_mem_constraint_handler_s(h) : set_str_constraint_handler_s(h);
+    else prev = k ? thrd_set_mem_constraint_handler_s(h) : thrd_set_str_constraint_handler_s(h);
+    t.in_op = save;
+    if (!thr && preemptible) { M.reg_owner[k] = -1; M.reg_pending[k] = 0; }
+    int pv = value_of_ptr(prev);
+    VSet &cur = thr ? M.T[me][k] : M.G[k];
+    VSet adm = cur;
+    if (cur & bit(V_NONE)) adm |= bit(V_DEF); // "never registered" may be reported as NULL or as the default handler
+    if (pv < 0 || !(adm & bit(pv))) {
+        violation(t, "wrong-previous",
+                  std::string(thr ? "thrd_set_" : "set_") + (k ? "mem" : "str") + "_constraint_handler_s on task " + std::to_string(me) + " returned " +
+                      (pv < 0 ? "an unknown pointer" : vname[pv]) + "; registered before: " + set_str(cur));
+    } else {
+        if (pv == V_NONE) M.first_prev_null++;
+        if (pv == V_DEF && (cur & bit(V_NONE)) && !(cur & bit(V_DEF))) M.first_prev_default++;
+    }
+    cur = bit(nv);
+    if (!thr) {
+        M.regs[k]++;
+        for (auto &st : M.fl)
+            for (auto &f : st)
+                if (f.kind == k) { f.gadm |= bit(nv); M.midcall_regs++; }
+    } else M.tregs[me][k]++;
+    note_state();
+    return pv;
+}
+
+// one violating call of kind k; nested != 0: the first handler invoked for it performs that action from inside the handler
+static int64_t do_dispatch_call(Task &t, int k, int which, bool preemptible, int nested, int nested_arg) {
+    int me = t.id;
+    InFlight f0;
+    f0.active = true;
+    f0.kind = k;
+    f0.gadm = M.G[k] | M.reg_pending[k];
+    f0.invocations = 0;
+    f0.regs_before = M.regs[k] + M.tregs[me][k];
+    M.fl[me].push_back(f0);
+    size_t depth = M.fl[me].size() - 1;
+    M.nested[me] = {nested, nested_arg};
+    do_violation(t, k, which, preemptible);
+    M.nested[me] = {0, 0};
+    InFlight f = M.fl[me][depth];
+    M.fl[me].resize(depth);
+    M.dispatches++;
+    if (f.regs_before >= 2) M.nontrivial_dispatch++;
+    if (f.invocations == 0) {
+        // nothing observable ran: only the library's real ignore_handler_s is invisible to the harness
+        VSet exp = expected_handlers(me, k, f.gadm);
+        if (!(exp & bit(V_IGN)))
+            violation(t, "no-handler", std::string("a ") + (k ? "mem" : "str") + " violation on task " + std::to_string(me) +
+                                           " invoked no observable handler; admissible: " + set_str(exp));
+        else collapse(me, k, f.gadm, V_IGN);
+    }
+    return f.invocations;
+}
+
+// runs in the handler, on the library's stack, after the invocation was logged and judged: the nested action
+static void c13_after_handler(int) {
+    Task *t = t_self;
+    if (!t) return;
+    int act = M.nested[t->id].first, arg = M.nested[t->id].second;
+    if (!act) return;
+    M.nested[t->id] = {0, 0};
+    M.nested_actions++;
+    bool save = t->in_op;
+    t->in_op = false; // the nested call is executed atomically
+    switch (act) {
+    case 1: do_registration(*t, OP_SET_STR, arg % 5, false); break;
+    case 2: do_registration(*t, OP_SET_MEM, arg % 5, false); break;
+    case 3: do_registration(*t, OP_THRD_SET_STR, arg % 5, false); break;
+    case 4: do_registration(*t, OP_THRD_SET_MEM, arg % 5, false); break;
+    case 5: do_dispatch_call(*t, 0, arg, false, 0, 0); break;
+    default: do_dispatch_call(*t, 1, arg, false, 0, 0); break;
+    }
+    t->in_op = save;
+}
+
 static void c13_exec(Task &t, const Op &op, OpResult &r) {
     int me = t.id;
     if (t.cur_op == 0) {
@@ -211,75 +319,12 @@ static void c13_exec(Task &t, const Op &op, OpResult &r) {
             if (d == t.self_id) { M.tls_reuse++; break; }
     }
     switch (op.fn) {
-    case OP_SET_STR: case OP_SET_MEM: case OP_THRD_SET_STR: case OP_THRD_SET_MEM: {
-        int k = (op.fn == OP_SET_MEM || op.fn == OP_THRD_SET_MEM) ? 1 : 0;
-        bool thr = op.fn == OP_THRD_SET_STR || op.fn == OP_THRD_SET_MEM;
-        constraint_handler_t h = handler_ptr((int)op.a[0]);
-        constraint_handler_t prev;
-        int nv0 = value_of_arg((int)op.a[0]);
-        if (!thr && M.tier2) {
-            // Tier 2: the registration call itself can be preempted, so that violations on other threads are dispatched
-            // while it is half done; they may see the old or the new handler, nothing else. Two process-wide
-            // registrations of one kind never overlap (racing registrations are a caller-side race the property does
-            // not speak about): a second one waits for the first.
-            while (M.reg_owner[k] >= 0 && M.reg_owner[k] != me) sim_switch_to(t, M.reg_owner[k]);
-            M.reg_owner[k] = me;
-            M.reg_pending[k] = bit(nv0);
-            for (auto &f : M.fl)
-                if (f.active && f.kind == k) { f.gadm |= bit(nv0); M.midcall_regs++; }
-            M.preemptible_regs++;
-        }
-        if (M.tier2) t.in_op = true;
-        if (!thr) prev = k ? set_mem_constraint_handler_s(h) : set_str_constraint_handler_s(h);
-        else prev = k ? thrd_set_mem_constraint_handler_s(h) : thrd_set_str_constraint_handler_s(h);
-        t.in_op = false;
-        if (!thr && M.tier2) { M.reg_owner[k] = -1; M.reg_pending[k] = 0; }
-        int pv = value_of_ptr(prev);
-        r.ret = pv;
-        VSet &cur = thr ? M.T[me][k] : M.G[k];
-        VSet adm = cur;
-        if (cur & bit(V_NONE)) adm |= bit(V_DEF); // "never registered" may be reported as NULL or as the default handler
-        if (pv < 0 || !(adm & bit(pv))) {
-            violation(t, "wrong-previous",
-                      std::string(thr ? "thrd_set_" : "set_") + (k ? "mem" : "str") + "_constraint_handler_s on task " + std::to_string(me) + " returned " +
-                          (pv < 0 ? "an unknown pointer" : vname[pv]) + "; registered before: " + set_str(cur));
-        } else {
-            if (pv == V_NONE) M.first_prev_null++;
-            if (pv == V_DEF && (cur & bit(V_NONE)) && !(cur & bit(V_DEF))) M.first_prev_default++;
-        }
-        int nv = value_of_arg((int)op.a[0]);
-        cur = bit(nv);
-        if (!thr) {
-            M.regs[k]++;
-            for (auto &f : M.fl)
-                if (f.active && f.kind == k) { f.gadm |= bit(nv); M.midcall_regs++; }
-        } else M.tregs[me][k]++;
-        note_state();
+    case OP_SET_STR: case OP_SET_MEM: case OP_THRD_SET_STR: case OP_THRD_SET_MEM:
+        r.ret = do_registration(t, op.fn, (int)op.a[0], M.tier2);
         break;
-    }
-    case OP_VIOL_STR: case OP_VIOL_MEM: {
-        int k = op.fn == OP_VIOL_MEM ? 1 : 0;
-        InFlight &f = M.fl[me];
-        f.active = true;
-        f.kind = k;
-        f.gadm = M.G[k] | M.reg_pending[k];
-        f.invocations = 0;
-        f.regs_before = M.regs[k] + M.tregs[me][k];
-        do_violation(t, k, (int)op.a[0], M.tier2);
-        f.active = false;
-        M.dispatches++;
-        if (f.regs_before >= 2) M.nontrivial_dispatch++;
-        r.ret = f.invocations;
-        if (f.invocations == 0) {
-            // nothing observable ran: only the library's real ignore_handler_s is invisible to the harness
-            VSet exp = expected_handlers(me, k, f.gadm);
-            if (!(exp & bit(V_IGN)))
-                violation(t, "no-handler", std::string("a ") + (k ? "mem" : "str") + " violation on task " + std::to_string(me) +
-                                               " invoked no observable handler; admissible: " + set_str(exp));
-            else collapse(me, k, f.gadm, V_IGN);
-        }
+    case OP_VIOL_STR: case OP_VIOL_MEM:
+        r.ret = do_dispatch_call(t, op.fn == OP_VIOL_MEM ? 1 : 0, (int)op.a[0], M.tier2, (int)op.a[1], (int)op.a[2]);
         break;
-    }
     case OP_OK: {
         char *buf = (char *)t.arena.base + ARENA_SIZE - 6144;
         if (op.a[0] & 1) r.ret = _strcpy_s_chk(buf, 32, "fine", BOS_UNKNOWN);
@@ -315,14 +360,16 @@ static void c13_exec(Task &t, const Op &op, OpResult &r) {
     default:
         if (op.fn >= 0 && op.fn < FN_COUNT) {
             int k = api_kind(op.fn);
-            InFlight &f = M.fl[me];
-            f.active = k >= 0;
-            f.kind = k < 0 ? 0 : k;
-            f.gadm = M.G[f.kind] | M.reg_pending[f.kind];
-            f.invocations = 0;
-            f.regs_before = M.regs[f.kind] + M.tregs[me][f.kind];
+            InFlight f0;
+            f0.active = true;
+            f0.kind = k < 0 ? 0 : k;
+            f0.gadm = M.G[f0.kind] | M.reg_pending[f0.kind];
+            f0.invocations = 0;
+            f0.regs_before = M.regs[f0.kind] + M.tregs[me][f0.kind];
+            if (k >= 0) M.fl[me].push_back(f0);
             exec_api_op(t, op, r);
-            f.active = false;
+            InFlight f = f0;
+            if (k >= 0) { f = M.fl[me].back(); M.fl[me].pop_back(); }
             if (f.invocations) {
                 M.dispatches++;
                 M.api_dispatches++;
@@ -379,6 +426,11 @@ static void gen_history(Rng &r, Plan &plan) {
             else if (k < 15) { op.fn = OP_VIOL_STR; op.a[0] = r.below(10); }
             else if (k < 19) { op.fn = OP_VIOL_MEM; op.a[0] = r.below(7); }
             else { op.fn = OP_OK; op.a[0] = r.below(2); }
+            if ((op.fn == OP_VIOL_STR || op.fn == OP_VIOL_MEM) && r.chance(1, 6)) {
+                // the handler that gets invoked re-enters the library: registers (1-4) or trips another constraint (5-6)
+                op.a[1] = 1 + r.below(6);
+                op.a[2] = op.a[1] <= 4 ? r.below(5) : r.below(7);
+            }
             tp.ops.push_back(op);
         }
     }
@@ -453,6 +505,10 @@ static std::string history_json(const Plan &p, const Schedule *s) {
         for (size_t i = 0; i < p.tasks[t].ops.size(); i++) {
             const Op &op = p.tasks[t].ops[i];
             std::string a = op.fn >= OP_SET_STR && op.fn <= OP_THRD_SET_MEM ? hn[op.a[0] % 5] : std::to_string(op.a[0]);
+            if ((op.fn == OP_VIOL_STR || op.fn == OP_VIOL_MEM) && op.a[1]) {
+                static const char *na[] = {"", "set_str", "set_mem", "thrd_set_str", "thrd_set_mem", "violate_str", "violate_mem"};
+                a += std::string(", handler does ") + na[op.a[1] % 7] + "(" + (op.a[1] <= 4 ? hn[op.a[2] % 5] : std::to_string(op.a[2])) + ")";
+            }
             o += (i ? "," : "") + jstr(std::string(opname(op.fn)) + "(" + a + ")");
         }
         o += "]}";
@@ -488,6 +544,7 @@ static void run_history(const Plan &plan, Strategy &st, bool tier2, RunOut &out)
     size_t n = plan.tasks.size();
     cfg.before_tasks = [n, tier2]() { model_reset(n, tier2); };
     g_handler_hook = c13_handler_hook;
+    g_handler_after = c13_after_handler;
     PassResult pr;
     run_pass(plan, cfg, st, pr);
     out.bad = M.bad;
@@ -599,7 +656,7 @@ struct C13Stats {
     uint64_t histories = 0, ops = 0, events = 0, switches = 0, inner_switches = 0, threads = 0;
     uint64_t tier1 = 0, tier2 = 0;
     uint64_t opk[9] = {0};
-    uint64_t api_dispatches = 0, api_ops = 0;
+    uint64_t api_dispatches = 0, api_ops = 0, nested_actions = 0, preemptible_regs = 0;
     uint64_t dispatches = 0, midcall_regs = 0, nontrivial = 0, tls_reuse = 0, children_of_registered = 0, collapsed_inherit = 0, collapsed_none = 0;
     uint64_t first_prev_null = 0, first_prev_default = 0, det_checked = 0, nondeterministic = 0;
     std::set<uint64_t> fingerprints, states;
@@ -618,7 +675,7 @@ static void flush_stats(C13Stats &st, const Args &a) {
     add("threads", st.threads); add("tier1", st.tier1); add("tier2", st.tier2); add("dispatches", st.dispatches); add("midcall_regs", st.midcall_regs);
     add("nontrivial", st.nontrivial); add("tls_reuse", st.tls_reuse); add("children_of_registered", st.children_of_registered);
     add("collapsed_inherit", st.collapsed_inherit); add("collapsed_none", st.collapsed_none); add("first_prev_null", st.first_prev_null);
-    add("first_prev_default", st.first_prev_default); add("api_dispatches", st.api_dispatches); add("api_ops", st.api_ops); add("det_checked", st.det_checked); add("nondeterministic", st.nondeterministic);
+    add("first_prev_default", st.first_prev_default); add("api_dispatches", st.api_dispatches); add("api_ops", st.api_ops); add("nested_actions", st.nested_actions); add("preemptible_regs", st.preemptible_regs); add("det_checked", st.det_checked); add("nondeterministic", st.nondeterministic);
     static const char *names[] = {"set_str", "set_mem", "thrd_set_str", "thrd_set_mem", "violate_str", "violate_mem", "ok_call", "spawn", "join"};
     s += ",\"op_kinds\":{";
     for (int i = 0; i < 9; i++) s += (i ? "," : "") + jstr(names[i]) + ":" + std::to_string(st.opk[i]);
@@ -687,6 +744,7 @@ int c13_batch(const Args &a) {
                 printf("BEGIN %llu preflight\n", (unsigned long long)i);
                 g_cur_plan = nullptr;
                 g_handler_hook = nullptr;
+                g_handler_after = nullptr;
                 for (size_t t = 0; t < pre.tasks.size(); t++) {
                     if (pre.tasks[t].ops.empty()) continue;
                     Schedule empty;
@@ -719,6 +777,8 @@ int c13_batch(const Args &a) {
             if (t->state == T_DONE) st.threads++;
         st.dispatches += M.dispatches;
         st.api_dispatches += M.api_dispatches;
+        st.nested_actions += M.nested_actions;
+        st.preemptible_regs += M.preemptible_regs;
         st.midcall_regs += M.midcall_regs;
         st.tls_reuse += M.tls_reuse;
         st.children_of_registered += M.children_of_registered;
